@@ -122,6 +122,11 @@ func hedgeTimingScenarios(prop, tier, extra string) []*Scenario {
 			rec(nil)
 		}
 	}
+	// maxHedges 0: never hedge
+	for _, o := range []Out{{V: 1, Dur: 3 * D}, {Err: E1, Dur: D}, {V: 0, Dur: 0}, {V: 1, Dur: 3 * D, Coop: true}} {
+		add("bare/mh0", []Spec{{Kind: KHedge, MaxHedges: 0, HDelay: D}}, []Out{o, {V: 2}}, bound)
+		add("bare/mh0/result(1)", []Spec{{Kind: KHedge, MaxHedges: 0, HDelay: D, Cancel: conds["result(1)"]}}, []Out{o, {V: 2}}, bound)
+	}
 	// a delay function whose value varies within one pass (an immediate backup request, then a later second hedge; and the reverse)
 	for _, ds := range [][]time.Duration{{0, 3 * D}, {D, 0}, {3 * D, D}, {0, 0}} {
 		for _, cn := range []string{"default", "result(1)"} {
@@ -172,9 +177,10 @@ func init() {
 		Property:  "C09",
 		Technique: "stateless schedule exploration (deviation-bounded, happens-before state cache) of the real hedge executor and its attempt threads under a virtual clock, over every assignment of durations and outcomes to the attempts",
 		Rule: "one execution = one complete schedule of a hedged execution whose attempts take scripted durations (0, delay-1, delay, delay+1, 3*delay, until cancelled) and outcomes; " +
-			"every assignment for maxHedges 1 (and 2 over a smaller alphabet in the quick tier) x four cancel-condition configurations (five for maxHedges 1: one registers two errors in one call), plus delay functions whose value varies within one pass ({0,3D}, {D,0}, {3D,D}, {0,0}) and placements inside retry/timeout/fallback, including every four-outcome script over a four-element alphabet for a hedge entered twice by a retry under the three non-default cancel conditions; distinct = distinct observation logs",
+			"every assignment for maxHedges 0, 1 (and 2 over a smaller alphabet in the quick tier) x four cancel-condition configurations (five for maxHedges 1: one registers two errors in one call), plus delay functions whose value varies within one pass ({0,3D}, {D,0}, {3D,D}, {0,0}) and placements inside retry/timeout/fallback, including every four-outcome script over a four-element alphabet for a hedge entered twice by a retry under the three non-default cancel conditions; distinct = distinct observation logs",
 		Assume: []string{"sequentially consistent interleavings at synchronisation granularity", "hedge delays: fixed, and four delay functions whose value depends on the number of hedges started",
 			"instrumentation by source rewriting preserves semantics (DESIGN.md §2)"},
+		Budget: map[string]time.Duration{"quick": 180 * time.Second},
 		Units: func(tier string) []Unit {
 			if tier == "thorough" {
 				return chunkUnits("C09", c09Scenarios(tier), 8)
